@@ -118,7 +118,7 @@ func TestC15(t *testing.T) {
 			top:       top,
 			win:       win,
 			seeds:     []uint64{1},
-			maxW:      24,
+			maxW:      memMaxWidth(win, 24),
 			constOnly: true,
 		}
 		fmt.Fprintf(&c.hist, "layout%v;", layout)
